@@ -47,7 +47,7 @@ def common_part(path, subset_files, include_submodules, include_meson_subproject
                                     or (not stat_fails(path) and path.stat().st_size == 0)))
             or (not path.is_file() and path.is_dir()
                 and (not dir_in_subset(path, subset_files)
-                     or (not include_meson_subprojects and parent_name(path) == "subprojects")
+                     or (not include_meson_subprojects and in_lang(r"subprojects", parent_name(path)))
                      or (not include_submodules and vcs_strategy is not None and vcs_strategy.is_submodule(path))))
             or vcs_says(vcs_strategy, path))
 
